@@ -682,6 +682,26 @@ def _run(ctx):
                 hist[kk] = hist.get(kk, 0) + 1
         jobs.append((line, h))
 
+    # ---- FIXED CORPUS (runs first, identical on every seed and tier): configurations past seeded changes needed
+    from cuqi.geometry import Continuous1D as _C1c, Image2D as _I2c, Discrete as _Dc, _DefaultGeometry1D as _D1c
+    def cg1(label, n):
+        mk = {"Continuous1D": lambda: _C1c(n), "Discrete": lambda: _Dc(n), "Default1D": lambda: _D1c(n)}[label]
+        return GSpec(label, "plain", mk, f"id:{n}")
+    def cgI(r, c, order="C"):
+        return GSpec("Image2D-" + order, "plain", lambda: _I2c((r, c), order=order), f"img{order}:{r}:{c}")
+    Ac6 = np.array([[1., 2, 0, -1, 3, 2], [0, 1, 4, 2, -2, 1], [3, 0, 1, 1, 0, -3], [2, -1, 0, 5, 1, 0], [0, 2, 2, 0, -1, 4], [1, 0, -2, 3, 2, 1]])
+    corpus = [
+        (cgI(2, 3, "C"), cgI(2, 3, "F"), "fn", Ac6, None),                 # same class, different order (T must swap the geometries)
+        (cgI(2, 3, "F"), cgI(3, 2, "C"), "fn", Ac6, True),
+        (cgI(2, 2, "F"), cg1("Continuous1D", 3), "fn", Ac6[:3, :4], False),  # non-square, image -> vector
+        (cg1("Continuous1D", 3), cgI(2, 2, "F"), "fn", Ac6[:4, :3], True),
+        (cg1("Continuous1D", 3), cg1("Continuous1D", 2), "mb", Ac6[:2, :3], None),   # non-square matrix-backed
+        (cg1("Default1D", 2), cg1("Discrete", 4), "mb", Ac6[:4, :2], None),
+        (cg1("Discrete", 4), cg1("Discrete", 4), "mb", Ac6[:4, :4], None),
+    ]
+    for gd_c, gr_c, kd_c, A_c, pres in corpus:
+        lin_case(gd_c, gr_c, kd_c, "dense", tag="@corpus", A_fixed=A_c, preserve=bool(pres), casekind="lin-corpus")
+
     reps = 1 if not thorough else 4
     TWO_D = ("Image2D-C", "Image2D-F", "Continuous2D", "Default2D")
     pair_dims = [d for d in dims if d >= 2]
@@ -1009,17 +1029,21 @@ def _run(ctx):
         mk1 = (lambda: LinearModel(A0, range_geometry=Rg_, domain_geometry=Dg)) if kind == "mb" else (lambda: LinearModel(fw, ad, Rg_, Dg))
         desc2 = {"history": "objects shared with a second model", "kind": kind, "A": A0.tolist()}
         ctx.case("lin-second-owner", desc2)
-        with quiet():
-            M1 = mk1(); F1 = cols(M1.forward, nD); A1_ = cols(M1.adjoint, nR); G1 = dense(M1.get_matrix())
-            M2 = mk1(); M2.get_matrix(); T2 = M2.T; T2.forward(np.ones(nR)); T2.get_matrix()
-            M3 = _copy.copy(M1); M3._non_default_args = ["z"]; M3.forward(z=np.ones(nD))
-            M4 = LinearModel(A0.T, range_geometry=Dg, domain_geometry=Rg_) if kind == "mb" else LinearModel(ad, fw, Dg, Rg_)
-            M4.forward(np.ones(nR)); M4.get_matrix()
-            F1b = cols(M1.forward, nD); A1b = cols(M1.adjoint, nR); G1b = dense(M1.get_matrix()); TG = dense(M1.T.get_matrix())
         k2 = f"LinearModel:second-owner:{kind}"
-        if differ(F1, A0, True) or differ(F1b, F1, True) or differ(A1b, A1_, True) or differ(G1b, G1, True) or differ(F1b.T, A1b, True) or differ(TG, G1b.T, True):
-            ctx.fail(k2, desc2, "results of a stand-alone model, unchanged by other models sharing its matrix / geometries / callables", "changed",
-                     "a second model (or a shallow copy) sharing the user's objects changes the first model's maps")
+        try:
+            with quiet():
+                M1 = mk1(); F1 = cols(M1.forward, nD); A1_ = cols(M1.adjoint, nR); G1 = dense(M1.get_matrix())
+                M2 = mk1(); M2.get_matrix(); T2 = M2.T; T2.forward(np.ones(nR)); T2.get_matrix()
+                M3 = _copy.copy(M1); M3._non_default_args = ["z"]; M3.forward(z=np.ones(nD))
+                M4 = LinearModel(A0.T, range_geometry=Dg, domain_geometry=Rg_) if kind == "mb" else LinearModel(ad, fw, Dg, Rg_)
+                M4.forward(np.ones(nR)); M4.get_matrix()
+                F1b = cols(M1.forward, nD); A1b = cols(M1.adjoint, nR); G1b = dense(M1.get_matrix()); TG = dense(M1.T.get_matrix())
+            if differ(F1, A0, True) or differ(F1b, F1, True) or differ(A1b, A1_, True) or differ(G1b, G1, True) or differ(F1b.T, A1b, True) or differ(TG, G1b.T, True):
+                ctx.fail(k2, desc2, "results of a stand-alone model, unchanged by other models sharing its matrix / geometries / callables", "changed",
+                         "a second model (or a shallow copy) sharing the user's objects changes the first model's maps")
+        except Exception as e:
+            ctx.fail(k2, desc2, "forward / adjoint / get_matrix / T of models sharing the user's objects evaluate", repr(e)[:150],
+                     "a model on plain (reshaping) geometries raises in forward / adjoint / get_matrix / T")
 
     # function-backed histories: get_matrix() (which caches) BEFORE T / further calls; a geometry RE-ASSIGNED after first use
     def history_fn(gd_, gr_, gd_new, cached):
@@ -1390,4 +1414,11 @@ def _run(ctx):
         if out == "bad-op":
             ctx.disagree("tie:protocol", {"line": line[:200]}, "bad-op", "-", "driver could not parse a generated line")
             continue
-        h(out)
+        try:
+            h(out)
+        except Exception as e:
+            import traceback
+            k_exc = "tie:probe-raised:" + line.split(" ")[0]
+            ctx.disagree(k_exc, {"line": line[:300]}, out[:200], repr(e)[:200], "probing the implementation for this case raised")
+            ctx.fail(k_exc, {"line": line[:300], "traceback": traceback.format_exc()[-600:]}, "the probes of this case evaluate (or are refused cleanly)", repr(e)[:200],
+                     "an operation of the model raised where the model predicts a value")
